@@ -30,7 +30,7 @@ ASSUMPTIONS = [
     "positive clip thresholds are only used when every sample is present in every channel (what clipping does to absent samples is not stated by the property)",
     "spec shapes beyond the generator bounds and custom modifier sets are not explored",
 ]
-REQUIRED = ("total_rate", "by_sample", "locality")
+REQUIRED = ("total_rate", "by_sample", "locality", "trajectory_rate")
 
 HISTO_CODES = ["code0", "code2", "code4p"]
 NORM_CODES = ["code1", "code4"]
@@ -214,6 +214,62 @@ def check_case(case, shard, points=None):
     return model
 
 
+def check_trajectory(case, shard, stride=7):
+    """Passive monitor on the calls pyhf makes to itself: while an optimiser fits the model, every
+    `stride`-th expected_data call of the main model is compared with the reference at the point the
+    optimiser chose (bounds, far tails, large pulls)."""
+    import pyhf
+    from pyhf import exceptions as E
+
+    tb = pyhf.tensorlib
+    model = make_model(dict(case, batch=None, clip_sample=None, clip_bin=None))
+    spec = case["spec"]
+    L = Layout(model)
+    ref = RefModel(spec, L)
+    codes = {"normsys": case["settings"]["normsys"]["interpcode"], "histosys": case["settings"]["histosys"]["interpcode"]}
+    rng = random.Random(case["seed"] + 5)
+    init = model.config.suggested_init()
+    rates = [max(float(x), 0.3) for x in to_np(model.expected_actualdata(tb.astensor(init)))]
+    data = [float(gen.poisson_draw(rng, r * rng.choice([0.7, 1.0, 1.4]))) for r in rates] + list(model.config.auxdata)
+    seen = []
+    mm = model.main_model
+    orig = mm.expected_data
+    counter = [0]
+
+    def hooked(pars, return_by_sample=False):
+        out = orig(pars, return_by_sample=return_by_sample)
+        counter[0] += 1
+        if not return_by_sample and counter[0] % stride == 0 and len(seen) < 12:
+            try:
+                seen.append(([float(x) for x in to_np(pars)], [float(x) for x in to_np(out)]))
+            except Exception:
+                pass
+        return out
+
+    mm.expected_data = hooked
+    try:
+        pyhf.infer.mle.fit(data, model)
+    except E.FailedMinimization:
+        pass
+    except Exception as e:
+        shard.skip(f"trajectory fit raised {type(e).__name__}")
+    finally:
+        mm.expected_data = orig
+    tol = 1e-9
+    for pars, got in seen:
+        bb = BlackBoxInterp()
+        ref.rates(pars, bb.record, codes)
+        bb.resolve()
+        tot, _, scale, _ = ref.rates(pars, bb.lookup, codes)
+        bad = [(g, got[g], tot[g]) for g in range(L.nmaindata) if not abs(got[g] - tot[g]) <= tol * (scale[g] + abs(tot[g])) + 1e-300]
+        if bad:
+            shard.violate("C01/bin-rate-mismatch", f"at an optimiser-visited point: bin {bad[0][0]} = {bad[0][1]!r}, reference {bad[0][2]!r}; settings={codes}", dict(case, pars=pars), "trajectory_rate")
+        else:
+            shard.ok("trajectory_rate", L.nmaindata)
+            shard.maximum("largest_abs_alpha_visited_by_optimiser", max([abs(p) for p in pars] + [0]))
+    shard.counters["optimiser_calls_seen"] += counter[0]
+
+
 def plan(tier, seed):
     if tier == "quick":
         layout = [("numpy", "64b", 22)] * 8 + [("jax", "64b", 8)] * 2 + [("pytorch", "64b", 12)] * 2 + [("tensorflow", "64b", 10)] * 2 + [("numpy", "32b", 10), ("pytorch", "32b", 8)]
@@ -236,6 +292,8 @@ def run_shard(shard):
         check_case(case, shard)
         if k == 0 and shard.index in (0, 9):
             shard.sample({k2: v for k2, v in case.items() if not k2.startswith("_")})
+        if p["backend"] == "numpy" and p["precision"] == "64b" and k % 4 == 0:
+            check_trajectory(case, shard)
 
 
 def replay(rec, shard):
